@@ -567,6 +567,10 @@ impl StreamsState {
     }
     /// the application is only ever handed remote streams within the advertised stream count (`accept` hands out ids below next_remote)
     pub open spec fn remote_bounded(&self) -> bool { self.next_remote[0] <= self.max_remote[0] && self.next_remote[1] <= self.max_remote[1] }
+    /// what was announced to the peer never exceeds the limit itself
+    pub open spec fn announce_ok(&self) -> bool { self.sent_max_remote[0] <= self.max_remote[0] && self.sent_max_remote[1] <= self.max_remote[1] }
+    /// the limit on remote streams of direction k has moved far enough past the last announcement (1/8 of the concurrency window)
+    pub open spec fn announce_due(&self, k: int) -> bool { self.max_remote[k] - self.sent_max_remote[k] > self.max_concurrent_remote_count[k] / 8 }
     /// send-side connection flow-control counters
     pub open spec fn sfc(&self) -> (u64, u64, u64, u64) { (self.max_data, self.data_sent, self.unacked_data, self.send_window) }
     /// opaque: bookkeeping when a receive half is dropped (recycling the allocation, then stream_freed(id, Recv), which is under
@@ -575,7 +579,25 @@ impl StreamsState {
     pub fn stream_recv_freed(&mut self, id: StreamId, recv: StreamRecv)
         ensures final(self).fc() == old(self).fc(), final(self).recv == old(self).recv, final(self).side == old(self).side,
             final(self).next_remote == old(self).next_remote, final(self).max_remote[0] >= old(self).max_remote[0], final(self).max_remote[1] >= old(self).max_remote[1],
+            final(self).sent_max_remote == old(self).sent_max_remote, final(self).max_concurrent_remote_count == old(self).max_concurrent_remote_count,
     { unimplemented!() }
+//@ extract quinn-proto/src/connection/streams/state.rs :: impl StreamsState::fn queue_max_stream_id
+//@ props C11
+//@ ret r
+//@ replace Dir::iter() => dir_iter()
+//@ loop-iter 0 itq
+//@ loop 0
+            invariant
+                *self == *old(self), self.announce_ok(),
+                forall|k: int| 0 <= k < 2 ==> #[trigger] pending.max_stream_id[k] == (old(pending).max_stream_id[k] || (k < itq.index@ && self.announce_due(k))),
+                pending.reset_stream == old(pending).reset_stream, pending.stop_sending == old(pending).stop_sending, pending.max_data == old(pending).max_data,
+//@ contract
+        requires old(self).announce_ok(),
+        ensures *final(self) == *old(self),
+            // MAX_STREAMS is queued for a direction exactly when the raised limit is worth announcing (or was queued already)
+            forall|k: int| 0 <= k < 2 ==> #[trigger] final(pending).max_stream_id[k] == (old(pending).max_stream_id[k] || old(self).announce_due(k)),
+            final(pending).reset_stream == old(pending).reset_stream, final(pending).stop_sending == old(pending).stop_sending, final(pending).max_data == old(pending).max_data,
+//@ end
 //@ extract quinn-proto/src/connection/streams/state.rs :: impl StreamsState::fn on_stream_frame
 //@ props C06
 //@ at-start
@@ -819,6 +841,8 @@ impl StreamsState {
             // sent, and no credit remembered from the previous connection survives
             final(self).next[0] == 0 && final(self).next[1] == 0, final(self).send_streams == 0, final(self).data_sent == 0,
             final(self).max_data == 0,
+            // ... and nothing counts against the send window: the discarded streams' bytes can never be acknowledged
+            final(self).unacked_data == 0,
 //@ loop-iter 0 od
 //@ loop 0
             invariant
@@ -1099,7 +1123,7 @@ impl StreamsState {
             final(self).local_max_data == sat_add(old(self).local_max_data, sat_sub(credits, old(self).receive_window_shrink_debt)),
             final(self).receive_window_shrink_debt == sat_sub(old(self).receive_window_shrink_debt, credits),
             final(self).data_recvd == old(self).data_recvd, final(self).sent_max_data == old(self).sent_max_data, final(self).receive_window == old(self).receive_window,
-            final(self).recv == old(self).recv, final(self).send == old(self).send, final(self).next_remote == old(self).next_remote, final(self).max_remote == old(self).max_remote,
+            final(self).recv == old(self).recv, final(self).send == old(self).send, final(self).next_remote == old(self).next_remote, final(self).max_remote == old(self).max_remote, final(self).sent_max_remote == old(self).sent_max_remote, final(self).max_concurrent_remote_count == old(self).max_concurrent_remote_count,
             r.0 == (final(self).local_max_data <= VarInt::MAX.0 && final(self).local_max_data - final(self).sent_max_data.0 >= final(self).receive_window / 8),
 //@ end
 
@@ -1130,7 +1154,13 @@ impl<'a> RecvStream<'a> {
 //@ contract
         requires
             old(self).state.sent_max_data.0 <= old(self).state.local_max_data || old(self).state.local_max_data > VarInt::MAX.0,
-        ensures match res {
+            old(self).state.announce_ok(),
+        ensures
+            // C11: when stopping releases the stream (its final size is known), the raised stream limit is announced like on every other
+            // path that frees a stream
+            (res is Ok && (recv_abs(old(self).state.recv, old(self).id) matches Some(r0) && !r0.open_ended())) ==>
+                forall|k: int| 0 <= k < 2 && final(self).state.announce_due(k) ==> #[trigger] final(self).pending.max_stream_id[k],
+            match res {
             // the application discards what it has not read: exactly that much credit goes back to the connection window, once (none if a
             // RESET_STREAM already returned the credit for the whole stream), and the stream is kept (marked stopped) for as long as its
             // final size is unknown
